@@ -146,7 +146,22 @@ C05Single(e, X, vals, mode) ==
                  IN  ~xj.guard /\
                      ~RWithin(d(i, j) ** xk.s2, d(i, k) ** xj.s2,
                               "2" ** ((TolMu(mode, xj) ** xk.s2) ++ (TolMu(mode, xk) ** xj.s2)))}
-    IN  {Slot("C05.winner_lost_mu", s[1], s[2]) : s \in a1}
+        \* no ties: value-identical teams end with mu ordered by finishing place (weakly), member by member
+        T == TeamsVals(e.teams)
+        noTies == \A p, r \in 1..n : p # r => ~ValEq(vals[p], vals[r])
+        c1 == IF ~noTies THEN {}
+              ELSE {pr \in (1..n) \X (1..n) : /\ pr[1] # pr[2] /\ T[pr[1]] = T[pr[2]] /\ ValLt(vals[pr[1]], vals[pr[2]])
+                                               /\ \E l \in MemIdx(e, pr[1]) :
+                                                     LET x == X[pr[1]][l]  y == X[pr[2]][l]
+                                                     IN  ~x.guard /\ ~y.guard /\
+                                                         RLt(Obs(e, pr[1], l).mu, Obs(e, pr[2], l).mu -- (TolMu(mode, x) ++ TolMu(mode, y)))}
+        \* under partial pairing a team is compared with its ladder neighbours only; when some team of the game is NOT
+        \* value-identical to the pair the clause is known not to hold (known finding KF-C05-1) and gets its own name
+        allSame == \A p \in 1..n : T[p] = T[1]
+        c1name == IF IsPart(e.model.kind) /\ ~allSame THEN "C05.identical_teams_not_ordered_by_place:partial_pairing_with_a_different_team"
+                  ELSE "C05.identical_teams_not_ordered_by_place"
+    IN  {c1name \o "[" \o ToString(pr[1]) \o "," \o ToString(pr[2]) \o "]" : pr \in c1} \cup
+        {Slot("C05.winner_lost_mu", s[1], s[2]) : s \in a1}
         \cup {Slot("C05.loser_gained_mu", s[1], s[2]) : s \in a2}
         \cup {"C05.team_split_direction[" \o ToString(i) \o "]" : i \in b1}
         \cup {"C05.not_proportional[" \o ToString(i) \o "]" : i \in b2}
@@ -186,6 +201,9 @@ C09Single(e) ==
            \cup (IF ~RWithin(RSumSeq(PMatV([i \in 1..n |-> v.items[i].v])), "1", RNorm(4 * n) ** Eps) THEN {"C09.sum"} ELSE {})
            \cup (IF n = 2 /\ TeamsVals(e.teams)[1] = TeamsVals(e.teams)[2]
                     /\ ~(REq(v.items[1].v, "0.5") /\ REq(v.items[2].v, "0.5")) THEN {"C09.identical_not_half"} ELSE {})
+           \cup (IF \E i, j \in 1..n : i < j /\ TeamsVals(e.teams)[i] = TeamsVals(e.teams)[j]
+                                         /\ ~RWithin(v.items[i].v, v.items[j].v, RNorm(4 * n) ** Eps)
+                 THEN {"C09.identical_teams_differ"} ELSE {})
 
 \* C12 / C09-C11 closed forms: within 1e-9 absolute of the documented formulas
 C12Win(e, W) ==
